@@ -360,6 +360,8 @@ type Solver struct {
 	quickMs   int
 	retired   map[string]*solverStats
 	preferInt bool
+	crossKind string
+	crossMs   int
 }
 
 var globalSolverStats = map[string]*solverStats{}
@@ -381,6 +383,9 @@ func (s *Solver) get(kind string) *backend {
 	ms := s.timeoutMs
 	if kind == "z3q" {
 		ms = s.quickMs
+	}
+	if kind == s.crossKind && s.crossMs > 0 {
+		ms = s.crossMs
 	}
 	nb, err := startBackend(kind, ms)
 	if err != nil {
@@ -502,6 +507,7 @@ func (s *Solver) Check(extra *Term, wantModel []*Term) (checkResult, map[string]
 // CrossCheck re-decides sat(log ∧ extra) on an independent back end and records a
 // disagreement with the given primary result.
 func (s *Solver) CrossCheck(kind string, extra *Term, primary checkResult) {
+	s.crossKind, s.crossMs = kind, 2000 // a short, separate budget: unknown = no opinion
 	b := s.get(kind)
 	if b == nil {
 		return
